@@ -697,14 +697,20 @@ func (p *pp) handleMethods(verb rune) (handled bool) {
 
 func (p *pp) printArg(arg interface{}, verb rune) {
 	t := reflect.TypeOf(arg)
+	// Unwrap Safe()/Unsafe(), also when nested: the outermost wrapper
+	// decides, since an override only takes effect when none is active.
+	for t == safeWrapperType || t == unsafeWrapperType {
+		if t == safeWrapperType {
+			defer p.startSafeOverride().restore()
+			arg = arg.(w.SafeWrapper).GetValue()
+		} else {
+			defer p.startUnsafeOverride().restore()
+			arg = arg.(w.UnsafeWrap).GetValue()
+		}
+		t = reflect.TypeOf(arg)
+	}
 	if safeTypeRegistry[t] {
 		defer p.startSafeOverride().restore()
-	} else if t == safeWrapperType {
-		defer p.startSafeOverride().restore()
-		arg = arg.(w.SafeWrapper).GetValue()
-	} else if t == unsafeWrapperType {
-		defer p.startUnsafeOverride().restore()
-		arg = arg.(w.UnsafeWrap).GetValue()
 	}
 
 	if _, ok := arg.(i.SafeValue); ok {
